@@ -81,12 +81,12 @@ Print Assumptions C19_programs_up4_partial.
 (* without the guard the statement is false: a posted burst >= 2^63 reaches MeterConfig.pburst
    (an int64) as a negative number (witness: POST, 1 Mbps both ways, downlink burst 2^63) *)
 Theorem C19_programs_up4_refuted :
-  ~ (forall (meth : string) (d : doc) (slice_id tc : N),
-       put_post meth -> wf_doc d -> slice_id < 16 -> tc < 4 ->
-       rate_ok (d_ul d) (d_unit d) -> rate_ok (d_dl d) (d_unit d) ->
-       r_writes (serve (Up4 slice_id tc) meth (Decoded d)) =
-       up4_meter_spec slice_id tc (d_ul d * unit_of (d_unit d)) (d_dl d * unit_of (d_unit d))
-                      (d_ulb d) (d_dlb d)).
+  exists (meth : string) (d : doc) (slice_id tc : N),
+    put_post meth /\ wf_doc d /\ slice_id < 16 /\ tc < 4 /\
+    rate_ok (d_ul d) (d_unit d) /\ rate_ok (d_dl d) (d_unit d) /\
+    r_writes (serve (Up4 slice_id tc) meth (Decoded d)) <>
+    up4_meter_spec slice_id tc (d_ul d * unit_of (d_unit d)) (d_dl d * unit_of (d_unit d))
+                   (d_ulb d) (d_dlb d).
 Proof. exact c19_programs_up4_refuted. Qed.
 Print Assumptions C19_programs_up4_refuted.
 
